@@ -1,6 +1,7 @@
 package pppoe
 
 import (
+	"bytes"
 	"context"
 	"crypto/rand"
 	"encoding/binary"
@@ -471,6 +472,11 @@ func (s *Server) handlePADT(clientMAC net.HardwareAddr, sessionID uint16) {
 		return
 	}
 
+	// A PADT from a MAC that does not own the session must not tear it down
+	if !bytes.Equal(clientMAC, session.ClientMAC) {
+		return
+	}
+
 	s.logger.Info("PPPoE session terminated by client",
 		zap.Uint16("session_id", sessionID),
 		zap.String("client_mac", clientMAC.String()),
@@ -503,6 +509,11 @@ func (s *Server) handleSession(clientMAC net.HardwareAddr, data []byte) {
 
 	session := s.sessions.GetSession(hdr.SessionID)
 	if session == nil {
+		return
+	}
+
+	// Only the session's owner may drive it (session ids are guessable 16-bit numbers)
+	if !bytes.Equal(clientMAC, session.ClientMAC) {
 		return
 	}
 
